@@ -112,7 +112,11 @@ func ParseRangeNumbers(rangeStr string) (numbers []int64, err error) {
 
 func GenerateResponseErrorString(summary string, err error, detailed bool) string {
 	if detailed {
-		return err.Error()
+		// An error with an empty text (e.g. a plugin reject without a reason) must not be
+		// reported as an empty string: the peer reads that as success.
+		if s := err.Error(); s != "" {
+			return s
+		}
 	}
 	return summary
 }
